@@ -75,7 +75,7 @@ Theorem C08_prepare_target_outcome_refuted :
     snd (step s (Prepare key parent l mok cbad)) = RTargetExists /\
     exists i, lookup (meta (fst (step s (Prepare key parent l mok cbad)))) t = Some i /\ i_kind i = KActive.
 Proof.
-  exists false, [Prepare 0 None no_labels true []], 1, None, (mkL (Some 0) false 0 0), true, [], 0.
+  exists false, [Prepare 0 None no_labels true []], 1, None, (mkL (Some 0) false 0 0 None), true, [], 0.
   vm_compute. repeat split. eexists. split; reflexivity.
 Qed.
 Print Assumptions C08_prepare_target_outcome_refuted.
@@ -218,7 +218,7 @@ Theorem C08_conc_remote_has_mount_refuted :
     In (EvRemoteCommit id) (log s) /\ closed s = false /\ In id (ids_of (meta s)) /\ mount_count s id = 0.
 Proof.
   exists false,
-    [Start 0 (Prepare 30 None (mkL (Some 31) false 0 0) true []); Step 0; Step 0;
+    [Start 0 (Prepare 30 None (mkL (Some 31) false 0 0 None) true []); Step 0; Step 0;
      Start 1 (Remove 30 []); Step 1; Step 1; Step 1;
      Start 1 (Prepare 30 None no_labels true []); Step 1;
      Step 0], 2.
@@ -230,9 +230,9 @@ Print Assumptions C08_conc_remote_has_mount_refuted.
    its internal commit, thread 2 starts Mounts of the active snapshot k2 and thread 1 removes k2 (metadata, Unmount,
    RemoveAll as three separate steps) before thread 2 continues; results so far and the mount table. *)
 Example C08_conc_nonvacuous :
-  let pre := [Start 0 (Prepare 0 None (mkL (Some 1) false 0 0) true []); Step 0; Step 0; Step 0;
+  let pre := [Start 0 (Prepare 0 None (mkL (Some 1) false 0 0 None) true []); Step 0; Step 0; Step 0;
               Start 0 (Prepare 2 (Some 1) no_labels true []); Step 0; Step 0; Step 0] in
-  let sched := pre ++ [Start 0 (Prepare 3 (Some 1) (mkL (Some 4) false 0 0) true []); Step 0; Step 0;
+  let sched := pre ++ [Start 0 (Prepare 3 (Some 1) (mkL (Some 4) false 0 0 None) true []); Step 0; Step 0;
                        Start 2 (Mounts 2 []); Start 1 (Remove 2 []);
                        Step 1; Step 0; Step 1; Step 1] in
   let cs := cexec (cinit false) sched in
@@ -246,7 +246,7 @@ Proof. vm_compute. repeat split. Qed.
    directories nearest parent first and fails as Unavailable when the Check of layer 1 fails; removing the
    active snapshot and then layer 2 unmounts layer 2 only, after its removal. *)
 Example C08_nonvacuous :
-  let h := [Prepare 0 None (mkL (Some 1) false 0 0) true []; Prepare 0 (Some 1) (mkL (Some 2) false 0 0) true [];
+  let h := [Prepare 0 None (mkL (Some 1) false 0 0 None) true []; Prepare 0 (Some 1) (mkL (Some 2) false 0 0 None) true [];
             Prepare 3 (Some 2) no_labels true []] in
   let s := exec (init false) h in
   mount_count s 1 = 1 /\ mount_count s 2 = 1 /\
@@ -254,5 +254,5 @@ Example C08_nonvacuous :
   snd (step s (Mounts 3 [1])) = RErr EUnavail /\
   step_events (exec s [Remove 3 []]) (Remove 2 []) =
     [EvMetaRemove 2; EvUnmount (DId 2) true true; EvRmDir (DId 2)] /\
-  snd (step s (Prepare 4 None (mkL (Some 5) false 0 0) false [])) = RMounts (MBind 4 false).
+  snd (step s (Prepare 4 None (mkL (Some 5) false 0 0 None) false [])) = RMounts (MBind 4 false).
 Proof. vm_compute. repeat split. Qed.
